@@ -437,6 +437,23 @@ func (m *streeModel) ruleNavTable(c *Ctx, rows [][3]string) {
 		pos := fn.Pos()
 		if acc := m.childAccesses(fn); len(acc) > 0 {
 			pos = acc[0].in.Pos()
+		} else {
+			// the walk lives in a helper the function hands the root to (t.root.leftmost()): judge the helper
+			var hs []*ssa.Function
+			allInstrs(fn, func(in ssa.Instruction) {
+				if v, ok := in.(ssa.Value); ok {
+					if h := m.nodeDelegate(v); h != nil {
+						hs = append(hs, h)
+					}
+				}
+			})
+			if len(hs) == 1 {
+				got = strings.Join(m.loadSig(hs[0]), ",")
+				c.sawFn(fnName(hs[0]))
+				if acc := m.childAccesses(hs[0]); len(acc) > 0 {
+					pos = acc[0].in.Pos()
+				}
+			}
 		}
 		c.judge(got == want, "R-ORIENT", name+":sides", pos, "reads child sides in the order ["+got+"]", fmt.Sprintf("reads child sides [%s] (small = .%s, large = .%s), binary-search-tree navigation requires [%s]", got, m.small.Name(), m.large.Name(), want))
 	}
@@ -954,7 +971,7 @@ func runC04(c *Ctx) {
 	c.Explanation = "Decides: (R-GUARD nil) 'a zero Map behaves as an empty read-only map' — every use of the possibly-nil tree pointer (Map.m / Iter.m) as a method receiver or bound receiver in package omap is dominated by a != nil test of the same field with no intervening store; the one exemption is Map.Set, documented to panic on a zero Map. Calls on Iter.c (a possibly-nil *stree.Cursor) are allowed because C03's R-GUARD(valid) makes every cursor method nil-safe; this check re-runs that rule and fails if it fails. (R-NATURAL-ORDER) omap.New installs cmp.Compare or a comparison that reaches it or handles NaN. (R-REBUILD-USED, R-ROOT-FLOW, shared with C01) the rebuilt subtree and the modified root are kept. (R-LINK-STALE, R-NIL-DROP, R-READONLY, R-PATH-FRESH, R-PATH-COMPLETE, shared with C01/C03) link edits of removal, read-only lookups and fresh cursor paths. Does NOT decide agreement with a reference sorted map, Seek positioning, or iterator order."
 	c.rule("R-GUARD", 6, "every method call on Map.m / Iter.m is under a != nil guard (Map.Set exempt); cursor methods are nil-safe (C03)")
 	mapT, iterT := P.Named("omap", "Map"), P.Named("omap", "Iter")
-	mF, imF := P.Field("omap", "Map", "m"), P.Field("omap", "Iter", "m")
+	mF, imF := P.fieldByType("omap", "Map", "m", "stree", "Tree"), P.fieldByType("omap", "Iter", "m", "stree", "Tree")
 	if mapT == nil || iterT == nil || mF == nil || imF == nil {
 		c.undecided("ANCHOR", "omap.Map/Iter", 0, "not found")
 		return
@@ -1167,7 +1184,7 @@ func runC04(c *Ctx) {
 	ruleOkForward(c, "omap", "stree")
 	ruleIterSiblings(c)
 	if seek := P.Func("omap", "Iter", "Seek"); seek != nil {
-		cF := P.Field("omap", "Iter", "c")
+		cF := P.fieldByType("omap", "Iter", "c", "stree", "Cursor")
 		okS := false
 		var first ssa.Instruction
 		allInstrs(seek, func(in ssa.Instruction) {
@@ -1499,7 +1516,7 @@ func (m *streeModel) ruleSizePair(c *Ctx) {
 // ---- R-ROOT-FLOW: the root stored by Add/Replace/Remove derives from the modified subtree
 func (m *streeModel) ruleRootFlow(c *Ctx) {
 	P := c.P
-	rewrite := P.Func("stree", "", "rewrite")
+	rewrite := streeRebuild(P)
 	for _, t := range [][2]string{{"Remove", "remove"}, {"Add", "insert"}, {"Replace", "insert"}} {
 		fn := P.Func("stree", "Tree", t[0])
 		if fn == nil {
@@ -1736,6 +1753,26 @@ func (m *streeModel) ruleNewDedup(c *Ctx) {
 		}
 		return false
 	}
+	// a package-local helper that performs the step on every one of its paths to a return counts as the step
+	// (sortedUniqueNodes(keys, compare))
+	isStd0 := isStd
+	var viaHelper func(in ssa.Instruction, depth int, names ...string) bool
+	viaHelper = func(in ssa.Instruction, depth int, names ...string) bool {
+		if isStd0(in, names...) {
+			return true
+		}
+		call, ok := in.(*ssa.Call)
+		if !ok || depth > 2 {
+			return false
+		}
+		h := origin(staticCallee(&call.Call))
+		if h == nil || h.Blocks == nil || h.Pkg != fn.Pkg || h == extract {
+			return false
+		}
+		missed, _ := reachesWithout(P, firstInstr(h), true, func(i2 ssa.Instruction) bool { _, r := i2.(*ssa.Return); return r }, func(i2 ssa.Instruction) bool { return viaHelper(i2, depth+1, names...) })
+		return !missed
+	}
+	isStd = func(in ssa.Instruction, names ...string) bool { return viaHelper(in, 0, names...) }
 	// every path from entry to extract passes a de-duplication
 	reach, wit := reachesWithout(P, firstInstr(fn), true, func(in ssa.Instruction) bool { return in == ssa.Instruction(ex) }, func(in ssa.Instruction) bool { return isStd(in, "CompactFunc", "Compact") })
 	c.judge(!reach, "R-NEW-DEDUP", "stree.New:dedup", ex.Pos(), "keys are de-duplicated on every path to the bulk loader", "the bulk loader is reachable without de-duplicating the keys ("+wit+"): equivalent keys given to New would both be stored")
@@ -1987,7 +2024,7 @@ func (m *streeModel) ruleSubtreeWalk(c *Ctx) {
 // field.  A result that is only kept in a local is a lost subtree.
 func (m *streeModel) ruleRebuildUsed(c *Ctx) {
 	P := c.P
-	rewrite := P.Func("stree", "", "rewrite")
+	rewrite := streeRebuild(P)
 	if rewrite == nil {
 		c.undecided("ANCHOR", "stree.rewrite", 0, "not found")
 		return
@@ -2581,7 +2618,7 @@ func (m *streeModel) ruleTreeAccessors(c *Ctx) {
 		c.judge(okE, "R-COUNT-FIELD", "stree.(*Tree).IsEmpty:tests the count", ie.Pos(), "IsEmpty is Len() == 0", fmt.Sprintf("IsEmpty tests .%s, but Len returns .%s: the two disagree whenever those fields differ (after removals the high-water mark stays up)", got, sizeF.Name()))
 	}
 	if sizeF != nil {
-		if rewrite := P.Func("stree", "", "rewrite"); rewrite != nil {
+		if rewrite := streeRebuild(P); rewrite != nil {
 			for _, fn := range P.Methods("stree", "Tree") {
 				fn := fn
 				allInstrs(fn, func(in ssa.Instruction) {
